@@ -167,6 +167,20 @@ def run(ctx):
             ctx.violations.append({"suite": "LEN-PROPERTY", "case": case, "impl": impl, "what": what})
         ctx.suites["LEN-PROPERTY"] = {"checked": "monotone, Some iff <= MAX, range(code) == run of code, tiling, on all 2^32 lengths",
                                       "failures": len(viol)}
+    # a generated hash carries the code of the number of bytes fed -- also when they arrive as ONE slice longer than 4 GiB
+    # (release build; ~4.3 GB of zero pages, about 25 s): there is no code for that length, so no hash
+    hr = ctx.harness("release")
+    if hr is not None:
+        n0 = 2 ** 32 + 1000
+        case = "hist N uzero %d l fd f 30" % n0
+        o = core.run_cases(hr, [case], tag="c09h", timeout=1500, shards=1)[0]
+        ctx.evaluations += 1
+        ctx.nontrivial.add(case)
+        if o.split(" | ") != ["none", "err TooLargeInput", "err TooLargeInput"]:
+            ctx.violations.append({"suite": "HUGE-SLICE", "case": case, "impl": o[:300], "config": "release",
+                                   "what": "%d bytes (more than the maximum) fed in one update(): there is no length code for them, finalize "
+                                           "must report TooLargeInput and processed_len must be None" % n0})
+        ctx.suites["HUGE-SLICE"] = {"cases": 1, "output": o[:120]}
     return finish(ctx)
 
 
